@@ -341,8 +341,15 @@ def rerun_case(ctx, run, ops, tag="shrink"):
     return {"ops": ops, "impl": impl, "model": model}
 
 
-def shrink(ctx, run, case, kind, budget=45):
-    """delta debugging on the request list (first line `case …` is kept); same failure kind must persist"""
+def skeleton(msg):
+    """failure message with the concrete values removed: two failures with the same skeleton are the same failure"""
+    return re.sub(r"[0-9_,\- ]+", "#", msg)[:60]
+
+
+def shrink(ctx, run, case, kind, budget=45, accept=None):
+    """delta debugging on the request list (first line `case …` is kept); the same failure (kind and message
+    skeleton) must persist and `accept(case, failure)` must hold (used to keep a shrink from drifting into a
+    listed known finding)"""
     ops = case["ops"]
     head, body = ops[:1], ops[1:]
     fail_at = analyse_case(run, case)
@@ -350,10 +357,16 @@ def shrink(ctx, run, case, kind, budget=45):
         body = body[: fail_at[1]]  # drop everything after the failing request
     t0 = time.time()
 
+    skel = skeleton(fail_at[2]) if fail_at else None
+
     def still(b):
         c = rerun_case(ctx, run, head + b)
         r = analyse_case(run, c)
-        return r is not None and r[0] == kind
+        if r is None or r[0] != kind:
+            return False
+        if kind == "oracle" and skel is not None and skeleton(r[2]) != skel:
+            return False
+        return accept(c, r) if accept else True
 
     n = 2
     while len(body) >= 2 and time.time() - t0 < budget:
